@@ -146,6 +146,7 @@ type sim struct {
 	lockMin, lockMax int64
 	nameSeq          int
 	failedBlock      bool
+	sharedExpiry     map[string]map[int64]bool
 	histStart        int64
 }
 
@@ -218,6 +219,7 @@ type op struct {
 	newDelegs   []pair
 	newBonds    []pair
 	overCommit  bool
+	follow      *op // a second operation to place right after this one in the same block
 }
 
 func (m *sim) name(a module.Address) string {
@@ -328,6 +330,15 @@ func (m *sim) genOp() *op {
 		case 1: // decrease, staying above what is in use
 			free := new(big.Int).Sub(ao.stake, using)
 			v = new(big.Int).Sub(ao.stake, m.drawAmount("stake.dec", free))
+			if t.Permille("stake.twice", 250) {
+				// a second decrease in the same block: two unstake slots with the same lock period
+				free2 := new(big.Int).Sub(v, using)
+				if free2.Sign() > 0 {
+					v2 := new(big.Int).Sub(v, m.drawAmount("stake.dec2", free2))
+					o.follow = &op{kind: "setStake", from: a, newStake: v2, tx: s.SetStake(a, v2),
+						desc: fmt.Sprintf("setStake %s %v (second decrease in this block)", m.name(a), v2)}
+				}
+			}
 		case 2: // to zero
 			v = new(big.Int)
 		case 3: // more than the account owns
@@ -903,13 +914,44 @@ func (m *sim) step(ops []*op, where string) bool {
 				keep = append(keep, e)
 			}
 		}
+		_, stakeChanged := stakeSet[k]
+		// shape bookkeeping for the overdue signature: two slots of one account due at the same
+		// height, and a later stake change that merged/cancelled one of them while the other stayed
+		cntPrev, cntNow := map[int64]int{}, map[int64]int{}
+		for _, e := range po.unstakes {
+			cntPrev[e.expire]++
+		}
+		for _, e := range no.unstakes {
+			cntNow[e.expire]++
+			if cntNow[e.expire] == 2 && cntPrev[e.expire] < 2 {
+				rc.Probe("two_unstake_slots_same_expiry")
+			}
+		}
+		if stakeChanged {
+			for _, e := range po.unstakes {
+				if cntPrev[e.expire] >= 2 && cntNow[e.expire] >= 1 && cntNow[e.expire] < cntPrev[e.expire] {
+					if m.sharedExpiry[k] == nil {
+						m.sharedExpiry[k] = map[int64]bool{}
+					}
+					if !m.sharedExpiry[k][e.expire] {
+						m.sharedExpiry[k][e.expire] = true
+						rc.Probe("shared_expiry_slot_changed")
+					}
+				}
+			}
+		}
 		for _, e := range no.unstakes {
 			if e.expire <= h {
-				rc.Violate("unstake-overdue", where, "h=%d account %s still holds an unstake of %v that was due at %d", h, m.name(a), e.amt, e.expire)
+				sig := "other"
+				if m.sharedExpiry[k][e.expire] {
+					// known shape: the slot that shared this expiry height was merged into a later one or
+					// cancelled by a stake change, and the height's timer entry went with it
+					sig = "shared-expiry-slot-timer-removed"
+				}
+				rc.Violate("unstake-overdue", sig, "h=%d account %s still holds an unstake of %v that was due at %d", h, m.name(a), e.amt, e.expire)
 				return false
 			}
 		}
-		_, stakeChanged := stakeSet[k]
 		if !stakeChanged {
 			if !sameEntries(keep, no.unstakes) {
 				rc.Violate("unstake-queue-changed", where, "h=%d account %s did not change its stake but its unstakes went %s -> %s", h, m.name(a), fmtEntries(po.unstakes), fmtEntries(no.unstakes))
@@ -1103,7 +1145,7 @@ func fmtEntries(es []entry) string {
 
 func (e engine) Run(rc *kit.RunCtx) {
 	t := rc.Tape
-	m := &sim{rc: rc, t: t, everPR: map[string]module.Address{}, down: map[string]bool{}}
+	m := &sim{rc: rc, t: t, everPR: map[string]module.Address{}, down: map[string]bool{}, sharedExpiry: map[string]map[int64]bool{}}
 	cfg := icsim.NewSimConfig()
 	cfg.TermPeriod = int64(10 + t.Choose("cfg.term", 21))
 	cfg.MainPRepCount = int64(3 + t.Choose("cfg.main", 2))
@@ -1342,6 +1384,9 @@ func (e engine) Run(rc *kit.RunCtx) {
 				seen[key(o.transferTo)] = true
 			}
 			ops = append(ops, o)
+			if o.follow != nil {
+				ops = append(ops, o.follow)
+			}
 		}
 		if !m.step(ops, "history") {
 			break
